@@ -216,6 +216,9 @@ class Check:
         if not ok:
             errs = [ln for ln in out.split("\n") if "error" in ln.lower()][:20]
             self.broken_ties.append("lake build failed: " + " | ".join(errs)[:1500])
+            # the search for a failing input needs the executable model: the driver imports Model/Spec only,
+            # so it can usually still be built when a proof file no longer checks
+            build.lean_build(["blocv"])
         for mod in self.proof_modules:
             thms = theorems_of(mod)
             self.obligations += len(thms)
